@@ -9,6 +9,8 @@
      ("text",    files, path, parts, minP)          -> (listing with decoded contents, glom of textFile)
      ("textwhole", files, path, parts, minP)        -> (listing with decoded contents, glom of wholeTextFiles)
      ("pickle",  files, path, parts, minP, table)   -> (listing with decoded contents, glom of pickleFile)
+     ("ctext",   files, path, parts, minP, cfg)     -> as "text"   (implementation runs on a thread pool; cfg ignored)
+     ("cpickle", files, path, parts, minP, table, cfg) -> as "pickle"
      ("read",    files, path, minP, meta)           -> glom of textFile
      ("whole",   files, path, minP, meta)           -> glom of wholeTextFiles
      ("binfiles",files, path, minP, meta)           -> glom of binaryFiles
@@ -105,6 +107,35 @@ Fixpoint as_obj_parts (l : list val) : option (list (list val)) :=
   | _ => None
   end.
 
+Definition run_text (files p parts minP : val) : val :=
+  match files, p, parts with
+  | VList files, VStr p, VList parts =>
+      match all_files files, all_str_parts parts, as_minP minP with
+      | Some fl, Some ps, Some m =>
+          match save_text toy_compress (mk_fs fl) p ps with
+          | Ok f' => VTup [listing f'; of_res (vglom VStr) (read_text toy_decompress f' p m)]
+          | Err e => VErr e
+          end
+      | _, _, _ => VBad
+      end
+  | _, _, _ => VBad
+  end.
+
+Definition run_pickle (files p parts minP table : val) : val :=
+  match files, p, parts, table with
+  | VList files, VStr p, VList parts, VList table =>
+      match all_files files, as_obj_parts parts, as_minP minP, all_table table with
+      | Some fl, Some ps, Some m, Some t =>
+          match save_pickle toy_compress val (tbl_dumps t) (mk_fs fl) p ps with
+          | Ok f' => VTup [listing f';
+                           of_res (vglom (fun v => v)) (pickle_file toy_decompress val (tbl_loads t) f' p m)]
+          | Err e => VErr e
+          end
+      | _, _, _, _ => VBad
+      end
+  | _, _, _, _ => VBad
+  end.
+
 Definition run (c : val) : val :=
   match c with
   | VTup (VStr k :: args) =>
@@ -115,15 +146,19 @@ Definition run (c : val) : val :=
         end
       else if kind_is k "text" then
         match args with
-        | [VList files; VStr p; VList parts; minP] =>
-            match all_files files, all_str_parts parts, as_minP minP with
-            | Some fl, Some ps, Some m =>
-                match save_text toy_compress (mk_fs fl) p ps with
-                | Ok f' => VTup [listing f'; of_res (vglom VStr) (read_text toy_decompress f' p m)]
-                | Err e => VErr e
-                end
-            | _, _, _ => VBad
-            end
+        | [files; p; parts; minP] => run_text files p parts minP
+        | _ => VBad
+        end
+      (* the same save / re-read executed by concurrently running tasks (thread pool, forced overlap inside
+         Local.dump): the sequential model is the specification, the pool configuration is ignored *)
+      else if kind_is k "ctext" then
+        match args with
+        | [files; p; parts; minP; _] => run_text files p parts minP
+        | _ => VBad
+        end
+      else if kind_is k "cpickle" then
+        match args with
+        | [files; p; parts; minP; table; _] => run_pickle files p parts minP table
         | _ => VBad
         end
       else if kind_is k "textwhole" then
@@ -143,16 +178,7 @@ Definition run (c : val) : val :=
         end
       else if kind_is k "pickle" then
         match args with
-        | [VList files; VStr p; VList parts; minP; VList table] =>
-            match all_files files, as_obj_parts parts, as_minP minP, all_table table with
-            | Some fl, Some ps, Some m, Some t =>
-                match save_pickle toy_compress val (tbl_dumps t) (mk_fs fl) p ps with
-                | Ok f' => VTup [listing f';
-                                 of_res (vglom (fun v => v)) (pickle_file toy_decompress val (tbl_loads t) f' p m)]
-                | Err e => VErr e
-                end
-            | _, _, _, _ => VBad
-            end
+        | [files; p; parts; minP; table] => run_pickle files p parts minP table
         | _ => VBad
         end
       else
